@@ -197,6 +197,11 @@ CHECKS.update({
         "note": TRUST + " Each problem is written in a fresh process (the writer's keyword set was process-global before the fix). PDDL has no bounded numeric types: the dropped bounds are a known finding; the third-party pddl package's de-duplication of repeated operands is a known finding outside unified_planning.",
         "technique": "TLA+ bisimulation / round-trip specification (TLC) judging problems and plans written and re-read by the real PDDL writer and readers",
     },
+    "C38": {
+        "text": "Renamer.tla states the property over names as code-point sequences with the writers' real keyword sets (read from the writer modules in a fresh process): every emitted name is valid for the target language, is no keyword, distinct items get distinct names (PDDL: ignoring ASCII case), get_item_named inverts get_pddl_name / the ANML name map, the names found in the emitted text agree with the look-ups, and the names of a problem do not depend on what the process wrote before (HistoryIndependent, keyword set as a state variable). T1: RenamerImpl.tla models both naming mechanisms as written (with a switch per repair) and TLC checks them against Renamer over a universe of adversarial names. T2: TLC-enumerated problem skeletons are written by the real PDDLWriter and ANMLWriter, on first use and after a writer for a temporal, constrained problem. T3: generated problems whose identifiers are replaced from pools of case variants, keywords, symbols, unicode, leading digits and already-mangled forms. RenamerJudge decides every clause on the recorded look-ups and harvested text names.",
+        "note": TRUST + " 'First use' is a reload of the writer modules; a sample is also run in new processes and compared. Only names are judged here; the semantics of the written files is C18/C19.",
+        "technique": "TLA+ specification of the renaming contract + model of the naming mechanisms (TLC), judging names produced by the real PDDL and ANML writers on TLC-enumerated and generated problems",
+    },
 })
 
 NOT_APPLICABLE = {}
